@@ -107,4 +107,7 @@ theorem C10.match_clauses_nonvacuous :
 /-! ## `Find`'s window and `patch` (facts of Generated/StoreFacts, proved in Props/C12Tie.lean) -/
 theorem C10.find_facts : type_of% C12.find_facts := C12.find_facts
 theorem C10.find_window_as_modelled : type_of% C12.find_window_as_modelled := C12.find_window_as_modelled
+/-- the window arithmetic pinned before the repair (`limit = skip + limit` in machine integers) panics on
+`Skip = 1, Limit = math.MaxInt` over three documents, where the model's `window` and the present statements return two -/
+theorem C10.pinned_window_overflows : type_of% C12.pinned_window_overflows := C12.pinned_window_overflows
 theorem C10.patch_freezes_result : type_of% C12.patch_freezes_result := C12.patch_freezes_result
